@@ -266,7 +266,7 @@ var streams = ev.NewCheck("C19", "line-streams",
 	"rapid: 1..12 records (time stamps over int32 incl. negatives and extremes, messages of 1..2000 arbitrary bytes) encoded like the driver (\"%d %X\\n\"); optionally lines damaged by: one hex digit removed, a hex digit or a time-stamp digit replaced by a character from [g-zG-Z_#@!,;], separator removed, newline removed (two lines merge / stream ends unterminated), message removed, time stamp outside int32, damaged time stamp followed by a complete record on the same line, doubled separator, separator inside the data; read from memory, one byte per call, a single read and 1..4 random partitions, each also with the last bytes delivered together with io.EOF; oracle = line model (split at newline; well formed iff -?[0-9]+ SP ([0-9A-F]{2})+): calling ReadAndConvert until io.EOF yields exactly the records of the well-formed lines in order, at least one error per malformed line, no panic, terminates within len(stream)+3 calls, and the same outcome sequence for every fragmentation; non-trivial = >= 2 records and (a read boundary inside a line or a well-formed line after a malformed one); distinct by stream bytes",
 	genCase, run)
 
-func TestPropLineStreams(t *testing.T) { streams.Rapid(t, 800, 30000) }
+func TestPropLineStreams(t *testing.T) { streams.Rapid(t, 2500, 30000) }
 
 // FuzzC19: raw bytes against the line model (thorough tier).
 func FuzzC19(f *testing.F) {
